@@ -130,16 +130,31 @@ def run_one(m, with_tests):
         out["first_mechanism"] = first[0].strip()[:200] if first else None
         if with_tests:
             shutil.copytree(os.path.join(REPO, "tests"), os.path.join(d, "tests"))
+            if os.path.isdir(os.path.join(REPO, "certs")):
+                shutil.copytree(os.path.join(REPO, "certs"), os.path.join(d, "certs"))      # tests/test_socketutil.py::TestSSL looks for ./certs
             for f in ("setup.cfg", "tox.ini"):
                 if os.path.exists(os.path.join(REPO, f)):
                     shutil.copy(os.path.join(REPO, f), d)
-            tp = subprocess.run(["/venv/bin/python", "-m", "pytest", "-q", "-p", "no:cacheprovider", "--timeout=900", "-x", "tests"], cwd=d, capture_output=True, text=True, timeout=1500)
+            tp = subprocess.run(["/venv/bin/python", "-m", "pytest", "-q", "-p", "no:cacheprovider", "--timeout=900", "tests"], cwd=d, capture_output=True, text=True, timeout=1500)
             out["repo_tests"] = tp.stdout.strip().splitlines()[-1][:120] if tp.stdout.strip() else "?"
     except subprocess.TimeoutExpired:
         out["result"] = "TIMEOUT"
     finally:
         shutil.rmtree(d, ignore_errors=True)
     return out
+
+
+# SILENT results that were analysed by hand: the mutation does not break the property it was aimed at
+ANALYSIS = {
+    "c19-hash-ignores-port": "equivalent for C19: id(self) % 2 is always 0 (object addresses are 16-aligned) and dropping the port from the hash keeps 'equal URIs have equal hashes'",
+    "c19-object-uppercased": "not a C19 violation (the upper-cased URI still round-trips through its own text form); the repository's tests kill it",
+    "c04-dunder-check-removed": "equivalent for C04: every '__' tag is still rejected with an error by the closed-set lookups that follow (TypeError from issubclass / SerializeError), no foreign class is built",
+    "c13-thread-hook-skipped-on-timeout": "equivalent for C13: 'return' inside try/finally still runs the disconnect handling exactly once; only the order hook/close changes, which the statement does not fix",
+    "c05-generic-except-narrowed-thread": "equivalent for C05: an exception leaving the job is caught by Worker.run after the job's finally block cleaned up; loop and worker survive",
+    "c05-exception-fallback-removed": "not a C05 violation (the connection is dropped, daemon and workers survive); it is a C07 violation and the C07 check fires on it (unserialisable-exception-not-described)",
+    "c03-server-replies-to-oneway": "equivalent: on the oneway path 'data' is unbound, the UnboundLocalError is swallowed by the oneway branch of the error handler, nothing is sent",
+    "c01-json-kwargs-not-recreated": "was silent because the C01 domain held no class-dict values; C01 now sends URI values on every path and fires on it (arg-result-mapping-differs:json); the repository's tests kill it too",
+}
 
 
 def main():
@@ -154,6 +169,8 @@ def main():
     with ThreadPoolExecutor(a.jobs) as ex:
         for r in ex.map(lambda m: run_one(m, a.tests), todo):
             print("%-48s %-4s %-13s %s" % (r["mutation"], r["property"], r.get("result"), (r.get("first_mechanism") or "")[:90] + ("  | tests: " + r["repo_tests"] if "repo_tests" in r else "")), flush=True)
+            if r.get("result") != "FIRED" and r["mutation"] in ANALYSIS:
+                r["analysis"] = ANALYSIS[r["mutation"]]
             results.append(r)
     path = os.path.join(V, "mutation_report.json")
     old = []
